@@ -21,6 +21,8 @@ Complete == Len(y) > 1
 NonNeg == \A p \in 1..Len(yd) : yd[p] >= 0
 ChainLin == (Complete /\ NonNeg) => ChainOK(yd, prof.n, FALSE)
 ChainSq == Complete => ChainOK(yd, prof.n, TRUE)
+\* the fast table equals the defining sums
+TableOK == Complete => STable(yd, prof.n, TRUE) = STableSlow(yd, prof.n, TRUE) /\ STable(yd, prof.n, FALSE) = STableSlow(yd, prof.n, FALSE)
 ValsA == {-1, 0, 1, 2}
 ValsB == {0, 1}
 ProfA == { [n |-> <<2, 2>>, r |-> 2], [n |-> <<3, 2>>, r |-> 1] }
